@@ -17,6 +17,8 @@
    (they guard the reference), and every case is exported and replayed.     *)
 EXTENDS Integers, Sequences, FiniteSets, SequencesExt, FiniteSetsExt, Json, IOUtils, TLC
 
+VARIABLE cur      \* the case under examination (one TLC state per case)
+
 CONSTANTS R,        \* exponents k range over -R..R
           NMin, NMax,
           Splits,   \* how k is split into (ll, lp, lq): set of <<dl, dp>> offsets
@@ -54,23 +56,22 @@ Thin(SS) == IF Cardinality(SS) <= MaxCases THEN SS
 Cases == {Case(p[1], p[2]) : p \in Thin(KSeqs \X Splits)}
 
 (* ---- laws of the reference -------------------------------------------- *)
-EssRange == \A c \in Cases : c.essden <= c.essnum /\ c.essnum <= c.n * c.essden     \* 1 <= ESS <= N
-RelVarNonNeg == \A c \in Cases : c.rvnum >= 0
+EssRange == \A c \in {cur} : c.essden <= c.essnum /\ c.essnum <= c.n * c.essden     \* 1 <= ESS <= N
+RelVarNonNeg == \A c \in {cur} : c.rvnum >= 0
 \* permutation invariance: the functionals depend on the multiset only
-PermInv == \A c \in Cases : LET srt == SortSeq(c.ks, <) IN S(srt) = c.s /\ Q(srt) = c.q
+PermInv == \A c \in {cur} : LET srt == SortSeq(c.ks, <) IN S(srt) = c.s /\ Q(srt) = c.q
 \* shift law on the lattice: adding 1 to every exponent doubles S and quadruples Q (ESS unchanged)
 Shift1(ks) == [i \in 1..Len(ks) |-> IF ks[i] = Dead THEN Dead ELSE ks[i] + 1]
-ShiftLaw == \A c \in Cases : (\A i \in 1..c.n : c.ks[i] = Dead \/ c.ks[i] < R) =>
+ShiftLaw == \A c \in {cur} : (\A i \in 1..c.n : c.ks[i] = Dead \/ c.ks[i] < R) =>
                (S(Shift1(c.ks)) = 2 * c.s /\ Q(Shift1(c.ks)) = 4 * c.q)
 \* equal weights give ESS = number of live samples
-UniformEss == \A c \in Cases : (\A i, j \in 1..c.n : c.ks[i] = c.ks[j]) => c.essnum = c.n * c.essden
+UniformEss == \A c \in {cur} : (\A i, j \in 1..c.n : c.ks[i] = c.ks[j]) => c.essnum = c.n * c.essden
 
-ASSUME EssRange /\ RelVarNonNeg /\ PermInv /\ ShiftLaw /\ UniformEss
 ASSUME PrintT(<<"NCASES", Cardinality(Cases)>>)
 ASSUME JsonSerialize(IOEnv.OUT_FILE, SetToSeq(Cases))
 
-VARIABLE dummy
-Init == dummy = 0
-Next == UNCHANGED dummy
-Spec == Init /\ [][Next]_dummy
+\* one TLC state per case: the laws are state invariants evaluated on every case
+Init == cur \in Cases
+Next == UNCHANGED cur
+Spec == Init /\ [][Next]_cur
 =============================================================================
